@@ -2,10 +2,34 @@
 package kinds
 
 import (
+	"net/url"
 	"time"
 
 	"example.com/vs/kinds/unit"
 )
+
+// Hidden holds exported fields that JSON does not carry: random data fills
+// them all the same, and their zero value would be ill-formed.
+type Hidden struct {
+	Name    string
+	Preview Shape  `json:"-"`
+	Start   Sparse `json:"-"`
+	Inner   Sparse `gomacro:"ignore"`
+}
+
+// Boards holds arrays of arrays that are not square.
+type Boards struct {
+	Wide [2][3]Sparse
+	Tall [3][2]bool
+}
+
+// Request uses named types of standard packages whose paths sort after the
+// module path.
+type Request struct {
+	Timeout time.Duration
+	Query   url.Values
+	Unit    unit.Unit
+}
 
 type Settings struct {
 	ByLevel  map[Level]string
